@@ -975,7 +975,7 @@ impl Stream for RandomBodies
 	}
 	fn count(&self, tier: Tier) -> u64
 	{
-		tier.pick(40_000, 1_000_000)
+		tier.pick(150_000, 1_000_000)
 	}
 	fn choice_len(&self) -> usize
 	{
@@ -1020,7 +1020,7 @@ impl Stream for SkipPatterns
 	}
 	fn count(&self, tier: Tier) -> u64
 	{
-		tier.pick(40_000, 1_000_000)
+		tier.pick(120_000, 1_000_000)
 	}
 	fn choice_len(&self) -> usize
 	{
